@@ -47,7 +47,7 @@ def main():
         "guard": "--cfg dmntk_verif",
         "enable": "RUSTFLAGS=\"--cfg dmntk_verif\" cargo build --offline (in /verif/harness: path deps + [patch.crates-io] onto the /repo working tree)",
         "baseline_off_cmd": "cd /repo && cargo test --workspace --no-fail-fast --offline",
-        "source_commits": ["3dd96f1"],
+        "source_commits": ["3dd96f1", "81e6a85"],
         "add_only": True},
       "engines": [{"name": ENGINE, "path": "check", "serves_properties": sorted(CHECKS),
                    "kind_free_text": "Coq 8.16 theorems over hand-written executable models (coq/), tied to /repo on every run by a differential correspondence check: Rust harness on the working tree vs the model evaluated by vm_compute inside coqc"}],
